@@ -143,7 +143,15 @@ CELER_FUNCTION TrackInitializer ScintillationGenerator::operator()(Generator& rn
     ExponentialDist sample_time(real_type{1} / component.fall_time);
 
     TrackInitializer photon;
-    photon.energy = detail::wavelength_to_energy(sample_lambda_(rng));
+
+    // The normal distribution has unbounded support: reject nonpositive
+    // wavelengths, which have no corresponding photon energy
+    real_type wavelength;
+    do
+    {
+        wavelength = sample_lambda_(rng);
+    } while (wavelength <= 0);
+    photon.energy = detail::wavelength_to_energy(wavelength);
 
     // Sample direction
     real_type cost = sample_cost_(rng);
